@@ -677,6 +677,10 @@ def c03(case, lines):
         return "end: run() returned %s before the transport ended" % rr[1]
     if not ended and got_acks != want_acks:
         return "packets: acknowledgements %s written for inbound packets that require %s" % (got_acks[:5], want_acks[:5])
+    # a PINGRESP in the stream completes the ping that is pending throughout
+    if not ended and any(rx_info(p)["t"] == 13 for k, p in inp[1:]) and any(e == "poll 9" for e in tr.evs):
+        if not any(r.startswith("ok") for _, r in tr.done().get(9, [])):
+            return "packets: a PINGRESP was delivered but the pending ping did not complete (%s)" % tr.done().get(9)
     items = [kv(" ".join(l.split(" ")[3:]))["pl"] for l in lines if l.split(" ")[1] == "I"]
     polls = sum(1 for e in tr.evs if e.startswith("pollstream"))
     want = [w for w in want_items][:polls]
